@@ -3,7 +3,7 @@ CONSTANTS
   ShiftStyle = "pad" LevelStyle = "match" TruncStyle = "exact" AnalyticStyle = "outer" BCubic = "plus"
   Sizes = {302, 403, 502}
   Cells = {11, 23}
-  Halos = {0, 1, 3}
+  Halos = {0, 1, 2, 3}
   ModeSet = {202, 402, 1212}
   NZs = {4}
   LevelLists = "mixed"
